@@ -458,6 +458,8 @@ Section Counters.
     - fold files. rewrite update_completed_exact; auto.
     - destruct (nth_error _ _); simpl; auto. destruct (f_pad _); simpl; auto.
     - destruct (create_chunk _ _ _ _ _); simpl; auto.
+    - destruct (create_chunk _ _ _ _ _); simpl; auto.
+      destruct (xfer _ _ _ _); simpl; auto. destruct w; simpl; auto.
   Qed.
 
   Lemma run_app : forall ops1 ops2 s,
